@@ -126,6 +126,9 @@ impl Entry {
 
 #[derive(Clone, Debug)]
 pub struct Item {
+    /// 0: leaf of fixed size `w` x `h` (bits); 1: "text" leaf without a size style, measured by `Ctx::Text(w, f32::from_bits(h))`:
+    /// `w` glyphs of size `h`, min-content width = h, max-content width = w * h
+    pub kind: u64,
     pub col: i64, // CSS line number (1-based, negative counts from the end of the explicit grid)
     pub cspan: i64,
     pub row: i64,
@@ -138,7 +141,7 @@ pub struct Item {
 
 impl Item {
     pub fn plain(col: i64, row: i64, w: u32, h: u32) -> Item {
-        Item { col, cspan: 1, row, rspan: 1, w, h, margin: [0; 4], ov: [0; 2] }
+        Item { kind: 0, col, cspan: 1, row, rspan: 1, w, h, margin: [0; 4], ov: [0; 2] }
     }
 }
 
@@ -261,7 +264,7 @@ impl Case {
         push_autos(&mut v, &self.auto_rows);
         v.push(self.items.len() as i64);
         for it in &self.items {
-            v.extend([it.col, it.cspan, it.row, it.rspan, it.w as i64, it.h as i64]);
+            v.extend([it.kind as i64, it.col, it.cspan, it.row, it.rspan, it.w as i64, it.h as i64]);
             v.extend(it.margin.iter().map(|x| *x as i64));
             v.extend(it.ov.iter().map(|x| *x as i64));
         }
@@ -274,7 +277,7 @@ impl Case {
         let ok = self.wk == 0
             && self.hk == 0
             && self.avail == [(0, 0), (0, 0)]
-            && self.items.iter().all(|i| i.cspan == 1 && i.rspan == 1 && i.margin == [0; 4] && i.ov == [0; 2])
+            && self.items.iter().all(|i| i.kind == 0 && i.cspan == 1 && i.rspan == 1 && i.margin == [0; 4] && i.ov == [0; 2])
             && self.cols.iter().chain(self.rows.iter()).all(|e| e.tracks.iter().all(old_tr))
             && self.auto_cols.iter().chain(self.auto_rows.iter()).all(old_tr);
         if !ok {
@@ -316,6 +319,7 @@ impl Case {
         let n = r.u();
         let items = (0..n)
             .map(|_| Item {
+                kind: r.u(),
                 col: r.i(),
                 cspan: r.i(),
                 row: r.i(),
@@ -366,14 +370,18 @@ impl Case {
                 let end = |span: i64| if span == 1 { GridPlacement::Auto } else { GridPlacement::from_span(span as u16) };
                 let ov = |o: u64| if o == 0 { taffy::Overflow::Visible } else { taffy::Overflow::Hidden };
                 let m = |b: u32| LengthPercentageAuto::length(f(b));
-                NodeSpec::leaf(Style {
-                    size: Size { width: Dimension::length(f(it.w)), height: Dimension::length(f(it.h)) },
+                let mut node = NodeSpec::leaf(Style {
+                    size: if it.kind == 0 { Size { width: Dimension::length(f(it.w)), height: Dimension::length(f(it.h)) } } else { Size::auto() },
                     margin: Rect { left: m(it.margin[0]), right: m(it.margin[1]), top: m(it.margin[2]), bottom: m(it.margin[3]) },
                     overflow: taffy::Point { x: ov(it.ov[0]), y: ov(it.ov[1]) },
                     grid_column: Line { start: GridPlacement::from_line_index(it.col as i16), end: end(it.cspan) },
                     grid_row: Line { start: GridPlacement::from_line_index(it.row as i16), end: end(it.rspan) },
                     ..Default::default()
-                })
+                });
+                if it.kind == 1 {
+                    node.ctx = Some(Ctx::Text(it.w, f(it.h)));
+                }
+                node
             })
             .collect();
         NodeSpec { style, ctx: None, children }
@@ -671,7 +679,7 @@ pub fn gen_k2(rng: &mut Rng) -> Case {
                 }
             }
             let ov = [rng.chance(1, 5) as u64, rng.chance(1, 5) as u64];
-            Item { col, cspan, row, rspan, w: b(w), h: b(h), margin, ov }
+            Item { kind: 0, col, cspan, row, rspan, w: b(w), h: b(h), margin, ov }
         })
         .collect();
     // indefinite container axes: sized under a max-content / min-content constraint or a definite available space
@@ -690,6 +698,34 @@ pub fn gen_k2(rng: &mut Rng) -> Case {
             }
         }
         c.avail = [av(rng, 400), av(rng, 300)];
+    }
+    c
+}
+
+/// Stage-2 K class with items whose min-content and max-content widths differ: `gen_k2` with a definite container height,
+/// rigid rows only (px / minmax(px, px); every item inside the explicit rows: row sizing never looks at a contribution) and
+/// about half of the items "text" leaves (`Ctx::Text(n, unit)`, no size style): min-content width = unit, max-content
+/// width = n * unit, minimum contribution = the automatic minimum size.
+pub fn gen_k3(rng: &mut Rng) -> Case {
+    let mut c = gen_k2(rng);
+    c.hk = 0;
+    let nrows = 1 + rng.below(3);
+    c.rows = (0..nrows)
+        .map(|_| {
+            let lo = k_len(rng, 60);
+            let t = if rng.chance(1, 3) { Tr { min: Sf(0, b(lo)), max: Sf(0, b(lo + k_len(rng, 30))) } } else { px(lo) };
+            single(t)
+        })
+        .collect();
+    c.auto_rows = vec![];
+    for it in c.items.iter_mut() {
+        it.rspan = 1 + rng.below(nrows.min(2)) as i64;
+        it.row = 1 + rng.below(nrows - it.rspan as u64 + 1) as i64;
+        if rng.chance(1, 2) {
+            it.kind = 1;
+            it.w = 2 + rng.below(12) as u32;
+            it.h = b(*rng.pick(&[4.0f32, 7.5, 10.0, 12.0, 16.0, 3.3]));
+        }
     }
     c
 }
@@ -746,7 +782,7 @@ pub fn witness_c() -> Case {
             single(px(100.0)),
         ],
         vec![single(px(50.0))],
-        vec![Item { col: 1, cspan: 3, row: 1, rspan: 1, w: b(200.0), h: b(10.0), margin: [0; 4], ov: [0; 2] }],
+        vec![Item { kind: 0, col: 1, cspan: 3, row: 1, rspan: 1, w: b(200.0), h: b(10.0), margin: [0; 4], ov: [0; 2] }],
     );
     c.gap = [(0, b(5.0)), (0, 0)];
     c
@@ -1286,6 +1322,8 @@ fn oracle_kcases(seed: u64, n: u64) -> Vec<Case> {
     let mut v = corpus();
     v.extend((0..n / 4).map(|_| gen_k(&mut rng)));
     v.extend((0..n / 4).map(|_| gen_k2(&mut rng2)));
+    let mut rng3 = Rng::new(seed ^ 0x3C09);
+    v.extend((0..n / 8).map(|_| gen_k3(&mut rng3)));
     v
 }
 
@@ -1309,9 +1347,15 @@ pub fn main(args: &[String]) {
             for _ in 0..n / 3 {
                 print_case(&gen_k(&mut rng));
             }
+            // stage 2: fixed-size leaves, and (second half) "text" leaves in rigid rows
             let mut rng = Rng::new(seed ^ 0x2C09);
-            for _ in 0..n - n / 3 {
+            let n2 = n - n / 3;
+            for _ in 0..n2 / 2 {
                 print_case(&gen_k2(&mut rng));
+            }
+            let mut rng = Rng::new(seed ^ 0x3C09);
+            for _ in 0..n2 - n2 / 2 {
+                print_case(&gen_k3(&mut rng));
             }
         }
         "one" => {
